@@ -228,6 +228,8 @@ class ImplStore:
             return dnp.calculate_enhancement(d, off_spectrum_index=kw["idx"])
         if f == "apodize":
             return dnp.apodize(d, kw["dim"], kw["kind"], **{k: to_float(v) for k, v in kw.get("kwargs", {}).items()})
+        if f == "autophase":
+            return dnp.autophase(d, dim=kw["dim"])
         if f == "phase":
             p0 = np.array([to_float(x) for x in kw["p0"]]) if isinstance(kw["p0"], list) else to_float(kw["p0"])
             p1 = np.array([to_float(x) for x in kw["p1"]]) if isinstance(kw["p1"], list) else to_float(kw["p1"])
